@@ -621,7 +621,7 @@ class Fingerprint(object):
             if method == 0:
                 folded_indices = self.indices % bits
             elif method == 1:
-                folded_indices = self.indices / (self.bits / bits)
+                folded_indices = self.indices // (self.bits // bits)
 
             self.index_to_folded_index_dict = dict(
                 zip(self.indices, folded_indices)
